@@ -24,6 +24,12 @@ type qStore struct {
 	problems  []string
 	readDelay func(h *qHandle) // invoked inside a Read, while the gauge counts it
 	emit      bool             // write st.open.* events into the hook log
+	// readHook, when set, runs inside every Read (while the gauge counts it) with the stream position the
+	// read starts at; a non-nil error is what the Read returns. It may block (a request in flight).
+	readHook func(h *qHandle, off int64, n int) error
+	// honourCtx: the store behaves like a remote client: OpenFile and Read fail with the error of the
+	// context OpenFile was given once that context is done.
+	honourCtx bool
 }
 
 type qHandle struct {
@@ -31,6 +37,8 @@ type qHandle struct {
 	ord     int
 	pointer string
 	inner   io.ReadSeekCloser
+	ctx     context.Context // what OpenFile was given
+	pos     atomic.Int64    // stream position (a handle is used by one goroutine at a time)
 	openGid int64
 	inUse   atomic.Int64 // goroutines currently inside Read/Seek/Close
 	closes  atomic.Int64
@@ -48,7 +56,13 @@ func (s *qStore) problem(format string, args ...any) {
 }
 
 func (s *qStore) OpenFile(ctx context.Context, pointer []byte) (io.ReadSeekCloser, error) {
-	inner, err := s.memDataStore.OpenFile(ctx, pointer)
+	var inner io.ReadSeekCloser
+	var err error
+	if s.honourCtx && ctx.Err() != nil {
+		err = fmt.Errorf("store request abandoned: %w", ctx.Err())
+	} else {
+		inner, err = s.memDataStore.OpenFile(ctx, pointer)
+	}
 	if err != nil {
 		if s.emit {
 			bs.VerifEmit("st.open.fail", 0, 0, string(pointer))
@@ -56,7 +70,7 @@ func (s *qStore) OpenFile(ctx context.Context, pointer []byte) (io.ReadSeekClose
 		return nil, err
 	}
 	s.mu.Lock()
-	h := &qHandle{s: s, ord: len(s.handles), pointer: string(pointer), inner: inner, openGid: curGoroutineID()}
+	h := &qHandle{s: s, ord: len(s.handles), pointer: string(pointer), inner: inner, ctx: ctx, openGid: curGoroutineID()}
 	s.handles = append(s.handles, h)
 	emit := s.emit
 	if emit {
@@ -91,13 +105,27 @@ func (h *qHandle) Read(p []byte) (int, error) {
 	if f := h.s.readDelay; f != nil {
 		f(h)
 	}
-	return h.inner.Read(p)
+	if f := h.s.readHook; f != nil {
+		if err := f(h, h.pos.Load(), len(p)); err != nil {
+			return 0, err
+		}
+	}
+	if h.s.honourCtx && h.ctx.Err() != nil {
+		return 0, fmt.Errorf("store read abandoned: %w", h.ctx.Err())
+	}
+	n2, err := h.inner.Read(p)
+	h.pos.Add(int64(n2))
+	return n2, err
 }
 
 func (h *qHandle) Seek(off int64, whence int) (int64, error) {
 	h.enter("Seek")
 	defer h.inUse.Add(-1)
-	return h.inner.Seek(off, whence)
+	n, err := h.inner.Seek(off, whence)
+	if err == nil {
+		h.pos.Store(n)
+	}
+	return n, err
 }
 
 func (h *qHandle) Close() error {
